@@ -98,7 +98,7 @@ class PersistentMixin(Module):
         try:
             with open(self.persistentFile, 'r', encoding='utf-8') as f:
                 self.persistentData = json.load(f)
-        except (FileNotFoundError, ValueError):
+        except (FileNotFoundError, ValueError, RecursionError):  # RecursionError: nesting too deep
             self.persistentData = {}
         if not isinstance(self.persistentData, dict):
             self.log.warning('persistent data in %s is not a JSON object', self.persistentFile)
